@@ -10,13 +10,14 @@ use std::task::{Context, Poll};
 pub struct EventExec<M: RawMutex + 'static> {
     ev: &'static GenericManualResetEvent<M>,
     futs: Slots<GenericWaitForEventFuture<'static, M>>,
+    view: bool,
 }
 
 impl<M: RawMutex + 'static> EventExec<M> {
     pub fn new(cfg: &[u64]) -> Self {
         let k = cfg[0] as usize;
         let ev = Box::leak(Box::new(GenericManualResetEvent::<M>::new(cfg[1] != 0)));
-        EventExec { ev, futs: Slots::new(k) }
+        EventExec { ev, futs: Slots::new(k), view: false }
     }
 
     fn observe(&self, o: &mut Obs) {
@@ -80,11 +81,17 @@ impl<M: RawMutex + 'static> Exec for EventExec<M> {
         self.observe(&mut o);
         o
     }
+    fn share(&self) -> Option<Box<dyn Exec>> {
+        Some(Box::new(EventExec { ev: self.ev, futs: Slots::new(self.futs.len()), view: true }))
+    }
 }
 
 impl<M: RawMutex + 'static> Drop for EventExec<M> {
     fn drop(&mut self) {
         self.futs.drop_all();
+        if self.view {
+            return;
+        }
         unsafe { drop(Box::from_raw(self.ev as *const _ as *mut GenericManualResetEvent<M>)) };
     }
 }
